@@ -14,6 +14,7 @@ import (
 	"github.com/casbin/casbin/v2/persist"
 	fileadapter "github.com/casbin/casbin/v2/persist/file-adapter"
 	stringadapter "github.com/casbin/casbin/v2/persist/string-adapter"
+	"github.com/casbin/casbin/v2/util"
 )
 
 // C18: filtered loading on the real fileadapter.FilteredAdapter, files in a temp dir under the
@@ -759,6 +760,67 @@ func c18Unreadable(c *Ctx, dir string) {
 	}
 }
 
+// (a) a second enforcer built on a FilteredAdapter through which a complete load has gone starts
+// with the whole policy (and may save it); (b) matching functions registered on the role managers
+// survive filtered and incremental loads as they survive a full load: with the same rules loaded,
+// the decisions are the same.
+func c18AdapterReuseAndFunctions(c *Ctx, dir string) {
+	path := filepath.Join(dir, "reuse.csv")
+	_ = os.WriteFile(path, []byte("p, alice, data1, read\np, bob, data2, write\ng, alice, admin\n"), 0o644)
+	a := fileadapter.NewFilteredAdapter(path)
+	m1, _ := model.NewModelFromString(machRBAC.Text)
+	e1, err := casbin.NewEnforcer(m1, a)
+	if err == nil {
+		_ = e1.LoadPolicy()
+		m2, _ := model.NewModelFromString(machRBAC.Text)
+		e2, err2 := casbin.NewEnforcer(m2, a)
+		if err2 == nil {
+			p1, _ := e1.GetPolicy()
+			p2, _ := e2.GetPolicy()
+			g1, _ := e1.GetGroupingPolicy()
+			g2, _ := e2.GetGroupingPolicy()
+			if !e2.IsFiltered() && (rulesKey(p1) != rulesKey(p2) || rulesKey(g1) != rulesKey(g2)) {
+				c.Direct("c18.reuse", "a second enforcer on a FilteredAdapter that reports a complete view starts without the policy (IsFiltered=false, so SavePolicy would overwrite the store with it)", fmt.Sprintf("first=%v %v second=%v %v", p1, g1, p2, g2))
+			}
+		}
+	}
+	c.Count("adapter-reuse")
+	// (b)
+	dpath := filepath.Join(dir, "funcs.csv")
+	_ = os.WriteFile(dpath, []byte("p, admin, d1, data1, read\np, admin, d2, data2, read\ng, alice, admin, *\ng, bob, admin, d2\n"), 0o644)
+	reqs := [][]string{{"alice", "d1", "data1", "read"}, {"alice", "d2", "data2", "read"}, {"bob", "d1", "data1", "read"}, {"bob", "d2", "data2", "read"}}
+	build := func(how string) string {
+		mm, _ := model.NewModelFromString(machDomain.Text)
+		e, _ := casbin.NewEnforcer(mm)
+		e.SetAdapter(fileadapter.NewFilteredAdapter(dpath))
+		e.AddNamedDomainMatchingFunc("g", "keyMatch", util.KeyMatch)
+		switch how {
+		case "full":
+			_ = e.LoadPolicy()
+		case "filtered-all":
+			_ = e.LoadFilteredPolicy(&fileadapter.Filter{})
+		case "filtered-then-incremental":
+			_ = e.LoadFilteredPolicy(&fileadapter.Filter{P: []string{"admin"}, G: []string{"alice"}})
+			_ = e.LoadIncrementalFilteredPolicy(&fileadapter.Filter{P: []string{"nobody"}, G: []string{"bob"}})
+		}
+		var out []string
+		for _, r := range reqs {
+			ok, _ := e.Enforce(toIface(r)...)
+			out = append(out, B(ok))
+		}
+		p, _ := e.GetPolicy()
+		g, _ := e.GetGroupingPolicy()
+		return strings.Join(out, "") + " " + sortedRulesKey(p) + "#" + sortedRulesKey(g)
+	}
+	full := build("full")
+	for _, how := range []string{"filtered-all", "filtered-then-incremental"} {
+		if got := build(how); got != full {
+			c.Direct("c18.functions."+how, "with a domain matching function registered, the same rules loaded through filtered loads give other decisions than a full load", fmt.Sprintf("full=%s %s=%s", full, how, got))
+		}
+		c.Count("functions-survive-filtered-loads")
+	}
+}
+
 func c18AllTypes(c *Ctx, dir string) {
 	// (a role definition cannot be NAMED g1 in a model text: the loader numbers them g, g2, g3, ...;
 	// Filter.G1 therefore never applies to anything)
@@ -994,6 +1056,7 @@ func init() {
 		c18ThirdPartyStore(c)
 		c18AllTypes(c, dir)
 		c18Unreadable(c, dir)
+		c18AdapterReuseAndFunctions(c, dir)
 		flat, flat2, dom := c18Flat(), c18Flat2(), c18Dom()
 		n := 0
 		id := func(tag string) string { n++; return fmt.Sprintf("c18.%s.%d", tag, n) }
